@@ -64,10 +64,10 @@ func (f *WithZipReader) Call(s *slip.Scope, args slip.List, depth int) (result s
 		slip.TypePanic(s, depth, "args[0]", args[0], "symbol")
 	}
 	d2 := depth + 1
-	args[1] = slip.EvalArg(s, args, 1, d2)
+	src := slip.EvalArg(s, args, 1, d2)
 	var r io.Reader
-	if r, ok = args[1].(io.Reader); !ok {
-		slip.TypePanic(s, depth, "args[1]", args[1], "input-stream")
+	if r, ok = src.(io.Reader); !ok {
+		slip.TypePanic(s, depth, "args[1]", src, "input-stream")
 	}
 	z, err := gzip.NewReader(r)
 	if err != nil {
